@@ -42,19 +42,46 @@ theorem heldM_zero (ts : List PTask) (m : Nat) (h : ∀ k ∈ ts, k.mapHeld = fa
   simp [h k hk]
 
 /-- the state of a pool at quiescence: every task has released its slot and its map slot -/
-theorem quiescent_tasks (base : Nat) (h : History) (hg : ∀ x ∈ h, x.admits noGac = true) (i : Nat) (c : Cfg) (p : Pool)
+theorem quiescent_tasks_core (base : Nat) (h : History) (i : Nat) (c : Cfg) (p : Pool)
     (hc : ((World.init base).run h).cfgs[i]? = some c) (hp : ((World.init base).run h).pools[i]? = some p)
-    (hall : p.AllTasksDone) :
-    p.lost = false ∧ ∀ k ∈ p.tasks, k.phase = .finished ∧ k.released = true ∧ k.mapHeld = false := by
-  obtain ⟨hl, _, hlife⟩ := strictAll base h hg i c p hc hp
+    (hall : p.AllTasksDone) (hl : p.lost = false) :
+    ∀ k ∈ p.tasks, k.phase = .finished ∧ k.released = true ∧ k.mapHeld = false := by
+  have hlife := lifeAll base h i c p hc hp
   have hmh := World.mh_run base h i c p hc hp
-  refine ⟨hl, ?_⟩
   intro k hk
   obtain ⟨t, ht⟩ := List.getElem?_of_mem hk
   have ho := hall t k ht
   have hf : k.phase = .finished := (hlife t k ht).out (by simpa [PTask.soft] using ho)
   have hr := ((hlife t k ht).fin (by simpa [PTask.soft] using hf) hl).1
   exact ⟨hf, by simpa [PTask.soft] using hr, hmh.fin t k ht hf hl⟩
+
+theorem quiescent_tasks (base : Nat) (h : History) (hg : ∀ x ∈ h, x.admits noGac = true) (i : Nat) (c : Cfg) (p : Pool)
+    (hc : ((World.init base).run h).cfgs[i]? = some c) (hp : ((World.init base).run h).pools[i]? = some p)
+    (hall : p.AllTasksDone) :
+    p.lost = false ∧ ∀ k ∈ p.tasks, k.phase = .finished ∧ k.released = true ∧ k.mapHeld = false :=
+  ⟨(strictAll base h hg i c p hc hp).1, quiescent_tasks_core base h i c p hc hp hall (strictAll base h hg i c p hc hp).1⟩
+
+/-- the argument of `C02_capacity_back_at_quiescence`, for any state in which no task was lost -/
+theorem capacity_back_core (base : Nat) (h : History) (hn : h.NoSetSize)
+    (hidle : ((World.init base).run h).ready = []) (i : Nat) (c : Cfg) (p : Pool) (n : Nat)
+    (hc : ((World.init base).run h).cfgs[i]? = some c) (hp : ((World.init base).run h).pools[i]? = some p)
+    (hsz : c.size0 = .fin n) (hpos : 0 < n) (hall : p.AllTasksDone) (hl : p.lost = false) :
+    p.sem.value = .fin n ∧ p.sem.waiters = [] := by
+  have hi := World.idle_pool base h hidle i c p hc hp
+  have hq := quiescent_tasks_core base h i c p hc hp hall hl
+  have hgood := goodFin base h hn i c p n hc hp hsz
+  obtain ⟨v, hv, hs⟩ := hgood.slot
+  have h0 : heldL p.tasks = 0 := heldL_zero _ (fun k hk => (hq k hk).2.1)
+  have hgr := grantsL_zero_of_pending _ hi.pend
+  have hvn : v = n := by omega
+  subst hvn
+  refine ⟨hv, ?_⟩
+  have hnp := hgood.wk (hgood.rz rfl) v hv hpos hgr
+  cases hw : p.sem.waiters with
+  | nil => rfl
+  | cons w ws =>
+    have hm : w ∈ p.sem.waiters := by rw [hw]; simp
+    exact absurd (hi.pend w hm) (hnp w hm)
 
 /-- **C02: once all work is finished an N-sized pool can again run N tasks at once — and nobody is left waiting.**
 After every history without `pool_size` assignment and without `gather_and_close`: whenever the loop is idle and every
